@@ -15,7 +15,7 @@ def obligations(ctx):
             assume = None; limits = {}
             if k == 'Pow':
                 # exponent case split 0..64 is exact; quick tier explores exponents up to 12 and everything beyond 64
-                if ctx.tier == 'quick': assume = z3.Or(b.var <= 12, b.var > 64)
+                pass        # every exponent: exact case split 0..64 and the two classes beyond
                 limits = {'timeout_ms': 60000}
             obs.append(EvalArm('C06', 'i64', k, (k, a, b), (lambda v, k=k: sem.i64_ref(k, v)), oc=oc, assume=assume, limits=limits))
         for k in UN:
@@ -47,7 +47,7 @@ def run(ctx):
     results = run_obligations(ctx, obs)
     bounds = dict(layer='E: ast::eval on one node (thorough: two nested nodes) with arbitrary i64 leaves',
                   configurations=['overflow-checks=on', 'overflow-checks=off'],
-                  pow='exponent split exactly for 0..64 (quick: 0..12), |base|<=1 periodic and |base|>=2 overflow beyond 64',
+                  pow='exponent split exactly for 0..64, |base|<=1 periodic and |base|>=2 overflow beyond 64',
                   factorial='n <= 25 (n! overflows i64 from n = 21)', shifts='count split 0..63 exactly, all others one class')
     outside = ['expressions deeper than two operator nodes are covered by the compositionality argument (C20) only',
                'exponent outside 0..4294967295 and n! for n < 0 are outside the statement (any non-panicking outcome accepted)',
